@@ -77,6 +77,9 @@ def unset_names(rnd, env):
             if cand and cand not in env and cand not in res and cand != nm:
                 res.append(cand)
                 break
+    # one long name: a diagnostic must still NAME the variable (not a prefix of it)
+    res = res[:3]
+    res.append('VERIF_LONG_' + ''.join(rnd.choice(NAMECH) for _ in range(rnd.choice([22, 30, 53, 120]))))
     while len(res) < 4:
         cand = 'VERIF_' + ''.join(rnd.choice(NAMECH) for _ in range(rnd.randint(1, 10)))
         if cand not in env and cand not in res:
@@ -98,7 +101,7 @@ def standin_env_random(tier, seed):
     sizes = [0, 3, 10] if tier != 'thorough' else list(range(0, 11)) * 3
     bound = ('1 fixed environment (empty values, http_proxy, Token/TOKEN/token with different values, digits/underscores, leading _ and digit) + %d random environments of %s variables (names over [A-Za-z0-9_] of 1..20 chars incl. leading digit/underscore, lower case, reserved words; values of 0..20 pieces of Unicode, quotes, blanks, `=`, newlines, '
              'control characters, 60%% with an embedded distinctive token), each: every variable read in strict and --no-strict mode (all in one tuple literal, and again one statement per variable rotating through plain let / function body / module body / map callback), 4 unset names (near misses of set names + random; same four program shapes) in both modes, '
-             'tuple fields named env; + 4 `let env` programs') % (len(sizes), '0..10' if tier == 'thorough' else '/'.join(map(str, sizes)))
+             'tuple fields named env; + 4 programs with a parameter named env; + 4 `let env` programs') % (len(sizes), '0..10' if tier == 'thorough' else '/'.join(map(str, sizes)))
     work = tempfile.mkdtemp(prefix='verif_c18_')
     n = 0
     try:
@@ -215,6 +218,26 @@ def standin_env_random(tier, seed):
                         if needle and needle in out and needle not in work and not any(needle in s_ for s_ in files.values()):
                             return viol(bound, n, '%s mode: the build output discloses the value of %s (%r found): ...%s' % (mode, nm, needle, out[max(0, out.find(needle) - 120):out.find(needle) + 60]),
                                         source=dict(files), env=env, expected='no value of any variable in the output', observed=out[-1200:], how=how)
+        # a parameter named env: either refused, or `env.NAME` inside still is the variable (never the argument)
+        shadow = ['let f = func (env) => env.HOME;\nlet x = f({HOME = "forged"});\nout json {v = x};\n',
+                  'let l = map(func (env) => env.HOME, [{HOME = "forged"}]);\nout json {v = l.0};\n',
+                  'let l = reduce(func (acc, env) => env.HOME, "", [{HOME = "forged"}]);\nout json {v = l};\n',
+                  'let f = func (a, env) => env.HOME;\nlet x = f(1, {HOME = "forged"});\nout json {v = x};\n']
+        for i, src in enumerate(shadow):
+            open(os.path.join(work, 'sh%d.ucg' % i), 'w').write(src)
+            if os.path.exists(os.path.join(work, 'sh%d.json' % i)):
+                os.remove(os.path.join(work, 'sh%d.json' % i))
+            rc, so, se = R.run_ucg(['build', 'sh%d.ucg' % i], work, env={'HOME': '/home/verif'})
+            n += 1
+            art = None
+            if os.path.exists(os.path.join(work, 'sh%d.json' % i)):
+                try:
+                    art = json.load(open(os.path.join(work, 'sh%d.json' % i)))
+                except Exception:
+                    art = 'unparsable'
+            if rc == 0 and art != {'v': '/home/verif'}:
+                return viol(bound, n, 'inside a function whose parameter is called env, env.HOME evaluates to %r; HOME is /home/verif' % (art,), source=src, env={'HOME': '/home/verif'},
+                            expected='a build error, or {"v": "/home/verif"}', observed='rc=0 artifact=%r' % (art,), how='`ucg build sh%d.ucg` started with HOME=/home/verif' % i)
         # `env` cannot be bound by let
         lets = ['let env = 1;\n', 'let env = {HOME = "x"};\nout json {v = env.HOME};\n', 'let a = 1;\nlet env = a;\nout json {v = env};\n', 'let env = env;\n']
         for i, src in enumerate(lets):
